@@ -28,8 +28,23 @@ def match(pat, val):
         return val in pat.split('|')
     return pat == val
 
+import re as _re
+
+def _shape(line):
+    """a line with long hex runs and numbers abstracted: what kind of answer it is"""
+    return _re.sub(r'[0-9a-f]{16,}', 'H', line)[:400]
+
+
 def compare(script_path, impl_path, model_path, max_report=50):
     res = {'lines': 0, 'compared': 0, 'declined': 0, 'i_ne_m': [], 's_bad': [], 'skipped': 0}
+    # details are kept for the first few cases of every distinct (answer, expectation) shape, so that
+    # many instances of one failure (e.g. a recorded finding) cannot crowd out a different one
+    shapes = {}
+
+    def keep(kind, iline, other):
+        k = (kind, _shape(iline), _shape(other))
+        shapes[k] = shapes.get(k, 0) + 1
+        return shapes[k] <= 3 and len(shapes) <= max_report * 4
     with open(script_path) as fs, open(impl_path) as fi, open(model_path) as fm:
         ln = 0
         for sline in fs:
@@ -52,13 +67,13 @@ def compare(script_path, impl_path, model_path, max_report=50):
                 res['compared'] += 1
                 bad = [k for k in set(I) | set(M) if not k.startswith('_') and I.get(k) != M.get(k)]
                 if bad:
-                    if len(res['i_ne_m']) < max_report:
+                    if keep('m', iline, mline):
                         res['i_ne_m'].append((ln, sline.strip(), iline, mline, ','.join(sorted(bad))))
                     else:
                         res['i_ne_m'].append((ln, '', '', '', ''))
             sbad = [k for k, p in S.items() if not match(p, I.get(k, '<absent>'))]
             if sbad:
-                if len(res['s_bad']) < max_report:
+                if keep('s', iline, spec):
                     res['s_bad'].append((ln, sline.strip(), iline, spec, ','.join(sorted(sbad))))
                 else:
                     res['s_bad'].append((ln, '', '', '', ''))
